@@ -71,11 +71,7 @@ impl MT950 {
         // Parse optional statement lines (repetitive)
         let mut field_61_vec = Vec::new();
         while parser.detect_field("61") {
-            if let Ok(field) = parser.parse_field::<Field61>("61") {
-                field_61_vec.push(field);
-            } else {
-                break;
-            }
+            field_61_vec.push(parser.parse_field::<Field61>("61")?);
         }
         let field_61 = if field_61_vec.is_empty() {
             None
@@ -103,7 +99,6 @@ impl MT950 {
         // Verify all content is consumed
 
         verify_parser_complete(&parser)?;
-
 
         Ok(MT950 {
             field_20,
